@@ -27,10 +27,13 @@ class IoParser(SubParser):
             return self.token_error('Expected format specifier, got {}')
         self.next_token()
 
-        num_unnamed = sum(
-            (1 for field in string.Formatter().parse(format_str)
-             if field[1] is not None
-             and (len(field[1]) == 0 or field[1].isdecimal())))
+        try:
+            num_unnamed = sum(
+                (1 for field in string.Formatter().parse(format_str)
+                 if field[1] is not None
+                 and (len(field[1]) == 0 or field[1].isdecimal())))
+        except ValueError as ex:
+            return self.trigger_error('Bad format string: {}'.format(ex))
         for field in range(0, num_unnamed):
             if not self._out_rvalue():
                 return False
